@@ -172,6 +172,7 @@ func (db *DB) registerTable(table TableMeta) error {
 	db.updateWriteTxnPoolLocked(len(root))
 
 	db.root.Store(&root)
+	verifHook("register.stored", db)
 	return nil
 }
 
@@ -214,10 +215,13 @@ func (db *DB) WriteTxn(tables ...TableMeta) WriteTxn {
 	}
 
 	lockAt := time.Now()
+	verifHook("wtxn.beforeLock", db)
 	txn.smus.Lock()
 	acquiredAt := time.Now()
+	verifHook("wtxn.locked", db)
 
 	txn.oldRoot = db.root.Load()
+	verifHook("wtxn.rootLoaded", db)
 
 	// Clone the root. This new allocation will become the new root when
 	// we commit.
@@ -254,6 +258,7 @@ func (db *DB) WriteTxn(tables ...TableMeta) WriteTxn {
 
 	handle := &writeTxnHandle{txn, nil}
 	runtime.SetFinalizer(handle, txnFinalizer)
+	verifHook("wtxn.done", db)
 	return handle
 }
 
